@@ -9,6 +9,7 @@ from ..script import Case
 
 BIG = sessions.BIGBUF
 MAXN = 2**64 - 1
+DEC_FAULT_MAGIC = "decfa0177666"
 VALUES = [0, 1, 2, 2**32 - 1, 2**32, 2**63, MAXN - 3, MAXN - 2, MAXN - 1, MAXN]
 
 
@@ -18,7 +19,7 @@ class CheckC09(core.Check):
     cfg = "A"
     rule = (
         "case = one session (stateful or stateless) driven through a random history of valid writes, writes into too-small buffers, genuine "
-        "and garbage deliveries, receiving-nonce settings and (hook) sending-nonce settings to boundary values (0, 1, 2^32-1, 2^32, 2^63, "
+        "and garbage deliveries, deliveries the back end itself refuses with an error other than Decrypt (resolver `+df`), receiving-nonce settings and (hook) sending-nonce settings to boundary values (0, 1, 2^32-1, 2^32, 2^63, "
         "2^64-3..2^64-1, random), then more operations; oracle: getters equal the model counters after every op, an operation at 2^64-1 "
         "fails with State(Exhausted) and moves nothing, no enc/dec event (other than the REKEY event) ever carries nonce 2^64-1; distinct key = "
         "(cipher, backend, mode, role/direction, history); non-trivial = the history contains a boundary setting followed by >= 1 judged operation"
@@ -30,7 +31,8 @@ class CheckC09(core.Check):
     def plan(self):
         rnd = random.Random(self.seed * 198491317 + 9)
         n = 40000 if self.tier == "quick" else 1500000
-        return [(rnd.choice(CIPHERS), rnd.choice(["D", "R", "DR"]), rnd.choice(["tr", "tr", "sl"]), rnd.choice(["NN", "XX", "N", "IK"]), rnd.getrandbits(32)) for _ in range(n)]
+        # `+df`: the back end's decrypt can fail for a reason of its own (Error::Input on ciphertexts starting with a magic prefix)
+        return [(rnd.choice(CIPHERS), rnd.choice(["D", "R", "DR", "D+df", "R+df"]), rnd.choice(["tr", "tr", "sl"]), rnd.choice(["NN", "XX", "N", "IK"]), rnd.getrandbits(32)) for _ in range(n)]
 
     def build(self, desc):
         ci, be, mode, pat, seed = desc
@@ -53,7 +55,7 @@ class CheckC09(core.Check):
         for _ in range(rnd.randrange(6, 30)):
             d = 0 if parsed.oneway else rnd.randrange(2)
             w, r = ("A", "B") if d == 0 else ("B", "A")
-            a = rnd.choice(["w", "w", "wbad", "deliver", "deliver", "garbage", "short", "paybuf", "setrx", "settx", "setboth", "replay", "setrx_sender", "rekey", "rekey", "wbig"])
+            a = rnd.choice(["w", "w", "wbad", "deliver", "deliver", "garbage", "short", "paybuf", "setrx", "settx", "setboth", "replay", "setrx_sender", "rekey", "rekey", "wbig"] + (["decfault"] * 3 if be.endswith("+df") else []))
             k += 1
             if st:
                 n = rnd.choice(VALUES + [rnd.getrandbits(64)])
@@ -68,6 +70,9 @@ class CheckC09(core.Check):
                 elif a == "wbad":
                     lab = c.op("st_write", w, n=n, pay="gen:6:p%d" % k, buf=21)
                     steps.append((lab, w, "st_write_bad", n))
+                elif a == "decfault":
+                    lab = c.op("st_read", r, n=n, msg="lit:" + DEC_FAULT_MAGIC + "%080x" % rnd.getrandbits(320), buf=BIG)
+                    steps.append((lab, r, "st_read_bad", n))
                 else:
                     lab = c.op("st_read", r, n=n, msg="gen:%d:g%d" % (rnd.choice([40, 40, 15, 0]), k), buf=BIG)
                     steps.append((lab, r, "st_read_bad", n))
@@ -115,6 +120,10 @@ class CheckC09(core.Check):
                 steps.append((lab, r, "garbage", d))
             elif a == "short":
                 lab = c.op("t_read", r, msg="gen:%d:g%d" % (rnd.choice([0, 1, 15]), k), buf=BIG)
+                steps.append((lab, r, "garbage", d))
+            elif a == "decfault":
+                # the cipher itself refuses this one, and not with Decrypt: a failed read all the same
+                lab = c.op("t_read", r, msg="lit:" + DEC_FAULT_MAGIC + "%080x" % rnd.getrandbits(320), buf=BIG)
                 steps.append((lab, r, "garbage", d))
             elif a == "paybuf":
                 # a genuine, in-order message delivered into a payload buffer that is too small: refused, nothing moves
